@@ -155,6 +155,9 @@ def check_inverse(p, lat, lon, zone, ell, prj):
     except Exception:  # noqa  (forward failures are C01's / check_forward's business)
         return
     h = h.lower()
+    fn_ = float(prj.falsenorth)
+    if h == 'north' and 0 < fn_ and n + fn_ <= 1e7 and p.rng.random() < 0.3:
+        h, n = 'south', n + fn_          # the same point in the southern convention continued across the equator
     if not (EAST_MIN <= e <= EAST_MAX and 0 <= n <= 10000000):
         p.stats.add('skipped:not-an-accepted-grid-coordinate')
         return
@@ -234,6 +237,11 @@ def chunk_agree(p, n):
             except Exception:  # noqa
                 continue
             h = h.lower()
+            fn = float(prj.falsenorth)
+            if h == 'north' and 0 < fn and nth + fn <= 1e7 and rng.random() < 0.35:
+                # a grid that crosses the equator with ONE false northing (southern convention continued north of the equator):
+                # the same point written as 'south' with a northing above the false northing
+                h, nth = 'south', nth + fn
         else:
             z = rng.choice(ISG_ZONES) if prj is K.isg else rng.randint(1, 60)
             fe, fn = float(prj.falseeast), float(prj.falsenorth)
@@ -241,6 +249,8 @@ def chunk_agree(p, n):
             h = rng.choice(['south', 'north']) if fn > 0 else 'north'
             e = round(rng.choice([fe, fe + rng.uniform(-3.4e5, 3.4e5), rng.uniform(EAST_MIN, EAST_MAX)]), dec)
             lo, hi = (max(0.0, fn - 8.9e6), min(fn, 1e7)) if h == 'south' else (0.0, 9.3e6)
+            if h == 'south' and fn < 1e7 and rng.random() < 0.3:
+                hi = min(1e7, fn + 9.3e6)            # northings above the false northing: north of the equator, southern convention
             nth = round(rng.choice([rng.uniform(lo, hi), hi if h == 'south' else lo]), dec)
             nth = min(max(nth, lo), hi)
         if not (EAST_MIN <= e <= EAST_MAX and 0 <= nth <= 10000000):
@@ -307,6 +317,31 @@ def chunk_structure(p, n):
                              and abs(abs(b[5]) - abs(conv)) <= 2 * TOL_CONV_DEG + slack)
                 p.violation('conv-sign' if sign_only else 'conv-exact', 'quadrants', inp, [a[5], b[5]], [-conv, -conv],
                             call + ' mirrored in the equator / CM')
+        # 6. psfandgridconv called directly (one of the observation points) with latitude / longitude as angle objects: the values of
+        #    the objects' decimal degrees
+        if rng.random() < 0.1:
+            import geodepy.angles as A
+            cls, mk = rng.choice([('DEC', A.DECAngle), ('HP', A.dec2hpa), ('GON', A.dec2gona), ('DMS', A.dec2dms), ('DDM', A.dec2ddm)])
+            try:
+                alat, alon = mk(lat), mk(lon)
+                dlat, dlon_ = alat.dec(), alon.dec()
+                phi, omr, e1_ = math.radians(dlat), math.radians(dlon_ - cm), ell.ecc1
+                t_ = math.tan(phi)
+                sg_ = math.sinh(e1_ * math.atanh(e1_ * t_ / math.sqrt(1 + t_ * t_)))
+                tc_ = t_ * math.sqrt(1 + sg_ * sg_) - sg_ * math.sqrt(1 + t_ * t_)
+                xi1_ = math.atan2(tc_, math.cos(omr))
+                eta1_ = math.asinh(math.sin(omr) / math.sqrt(tc_ * tc_ + math.cos(omr) ** 2))
+                ref = C.psfandgridconv(xi1_, eta1_, dlat, dlon_, cm, math.atan(tc_), ell, prj)
+            except Exception:  # noqa
+                ref = None
+            if ref is not None:
+                p.case('direct_angle_objects', dict(inp, cls=cls))
+                dcall = f'psfandgridconv(xi1, eta1, {cls} object of {lat!r}, {cls} object of {lon!r}, {cm!r}, conf_lat, {src_ell(ell)}, {src_prj(prj)})'
+                okd, got = p.guarded('psf-exact:raises', 'direct_angle_objects', dict(inp, cls=cls),
+                                     lambda: C.psfandgridconv(xi1_, eta1_, alat, alon, cm, math.atan(tc_), ell, prj), dcall)
+                if okd:
+                    p.check(tuple(got) == tuple(ref), 'psf-exact', 'direct_angle_objects', dict(inp, cls=cls), list(got), list(ref),
+                            dcall + ' vs the same call with the decimal-degree values')
         # 5. a long-lived projection definition whose central scale was edited after it had been used: the values are
         #    those of the definition as it is at the time of the call (same as a fresh object with the same fields)
         if prj is not K.isg and rng.random() < 0.3:
